@@ -22,6 +22,7 @@ func init() {
 			pf.CtrlGapPct = 20
 			pf.Tunes = []int{1, 2, 3, 4, 6, 8, 0}
 			pf.Releaser = 100
+			pf.WarmPct = 35
 			return generate(r, pf)
 		},
 		Judge: judgeC18,
